@@ -1,29 +1,33 @@
 #!/usr/bin/env python3
-"""For every `fixed` entry of known_findings.json: its replay must reproduce the signature on the pinned base commit
-of /repo (before any fix: commit) and must be clean on the current tree."""
+"""For every `fixed` entry of known_findings.json: its replay must reproduce the signature on the parent of its fix: commit
+(the tree just before the repair) and must not show that signature on the current tree."""
 import json, os, subprocess, sys
 HERE = os.path.dirname(os.path.dirname(os.path.abspath(__file__)))
-BASE = open("/root/.vp/repo_root_sha").read().strip() if os.path.exists("/root/.vp/repo_root_sha") else "8129259"
 TREE = "/tmp/operon_base_%d" % os.getpid()
 def sh(c, **k): return subprocess.run(c, shell=True, capture_output=True, text=True, **k)
 only = sys.argv[1:]
-r = sh("git -C /repo worktree add -q --detach %s %s" % (TREE, BASE))
-if r.returncode:
-    r = sh("git -C /repo worktree add -q --detach %s 8129259" % TREE)
 bad = 0
-try:
-    for e in json.load(open(os.path.join(HERE, "known_findings.json")))["findings"]:
-        if e["status"] != "fixed" or (only and e["property"] not in only):
-            continue
-        rp = os.path.join(HERE, e["replay"])
-        old = sh("%s/replay.sh %s" % (HERE, rp), env=dict(os.environ, VERIF_REPO=TREE))
-        new = sh("%s/replay.sh %s" % (HERE, rp))
-        ok_old = e["signature"] in old.stdout
-        ok_new = "finding(s)" in new.stdout and e["signature"] + ":" not in new.stdout and "HARNESS" not in new.stderr
-        print("%-4s %-55s base:%s current:%s" % (e["property"], e["signature"][:55], "reproduces" if ok_old else "NOT REPRODUCED", "clean" if ok_new else "NOT CLEAN"))
-        if not (ok_old and ok_new):
-            bad += 1
-            print(old.stdout[-600:], old.stderr[-300:])
-finally:
+entries = [e for e in json.load(open(os.path.join(HERE, "known_findings.json")))["findings"]
+           if e["status"] == "fixed" and (not only or e["property"] in only)]
+by_commit = {}
+for e in entries:
+    by_commit.setdefault(e["commit"], []).append(e)
+for commit, es in by_commit.items():
     sh("git -C /repo worktree remove --force %s" % TREE)
+    r = sh("git -C /repo worktree add -q --detach %s %s^" % (TREE, commit))
+    if r.returncode:
+        print("cannot check out %s^: %s" % (commit, r.stderr)); bad += 1; continue
+    try:
+        for e in es:
+            rp = os.path.join(HERE, e["replay"])
+            old = sh("%s/replay.sh %s" % (HERE, rp), env=dict(os.environ, VERIF_REPO=TREE))
+            new = sh("%s/replay.sh %s" % (HERE, rp))
+            ok_old = (e["signature"] + ":") in old.stdout
+            ok_new = "finding(s)" in new.stdout and (e["signature"] + ":") not in new.stdout and "HARNESS" not in new.stderr
+            print("%-4s %-55s before-%s:%s current:%s" % (e["property"], e["signature"][:55], commit, "reproduces" if ok_old else "NOT REPRODUCED", "clean" if ok_new else "NOT CLEAN"))
+            if not (ok_old and ok_new):
+                bad += 1
+                print(old.stdout[-600:], old.stderr[-300:])
+    finally:
+        sh("git -C /repo worktree remove --force %s" % TREE)
 sys.exit(1 if bad else 0)
